@@ -258,3 +258,80 @@ Example C18_run_ids_nonvacuous :
   /\ ids_ok_b (counter_ids 5 [0; 1; 0; 2; 1]%nat) = false
   /\ ids_ok_b (counter_ids 5 [0; 0; 0]%nat) = true.
 Proof. vm_compute. repeat split. Qed.
+
+(* ---- front end (round 8): the SentryFormatter OBJECT an application obtains through SimplePipeline::formatToSentry(sdkName,
+   sdkVersion) - any of the three call shapes (), (n), (n, v) - behaves exactly as SentryFormatter constructed directly with the
+   same arguments, so every theorem above carries over to it.  [src_sentry_front] is translated from the body of
+   SimplePipeline::formatToSentry (simplepipeline.cpp) and the default arguments of its declaration (simplepipeline.h) on every run *)
+Theorem C18_source_front_end_good : front_goodb src_sentry_cfg src_sentry_front = true.
+Proof. vm_compute. reflexivity. Qed.
+Print Assumptions C18_source_front_end_good.
+
+Theorem C18_front_end_is_the_direct_object : forall c qtver eid m,
+  front_format src_sentry_cfg src_sentry_front c qtver eid m = sentry_format (direct_cfg src_sentry_cfg c) qtver eid m.
+Proof. exact (front_format_is_direct src_sentry_cfg src_sentry_front C18_source_front_end_good). Qed.
+Print Assumptions C18_front_end_is_the_direct_object.
+
+(* ... and the directly constructed object with arguments is again the specified configuration, with the arguments as its sdk strings *)
+Theorem C18_direct_object_with_arguments_good : forall c, call_unitsb c = true ->
+  sentry_cfg_goodb (direct_cfg src_sentry_cfg c) = true
+  /\ sdk_name (direct_cfg src_sentry_cfg c) = fst (direct_args src_sentry_cfg c)
+  /\ sdk_version (direct_cfg src_sentry_cfg c) = snd (direct_args src_sentry_cfg c).
+Proof. exact (fun c Hc => conj (direct_cfg_good src_sentry_cfg c C18_source_configuration_good Hc) (direct_cfg_sdk src_sentry_cfg c)). Qed.
+Print Assumptions C18_direct_object_with_arguments_good.
+
+(* valid and lossless through the front end; the sdk object of the event holds the caller's two strings (the defaults for omitted ones) *)
+Theorem C18_front_end_valid_and_lossless : forall c qtver eid m,
+  call_unitsb c = true -> units qtver -> units eid -> wf_msg (s_msg m) -> time_ok (s_time_ms m) ->
+  parse_doc (front_format src_sentry_cfg src_sentry_front c qtver eid m)
+  = Some (JObj (event_members (fst (direct_args src_sentry_cfg c)) (snd (direct_args src_sentry_cfg c)) qtver eid m)).
+Proof. exact (front_roundtrip src_sentry_cfg src_sentry_front C18_source_configuration_good C18_source_front_end_good). Qed.
+Print Assumptions C18_front_end_valid_and_lossless.
+Theorem C18_sdk_object_holds_the_arguments : forall sdkn sdkv qtver eid m,
+  get2 (event_members sdkn sdkv qtver eid m) k_sdk k_name = Some (JStr sdkn)
+  /\ get2 (event_members sdkn sdkv qtver eid m) k_sdk k_version = Some (JStr sdkv).
+Proof. exact ev_sdk. Qed.
+Print Assumptions C18_sdk_object_holds_the_arguments.
+
+Theorem C18_front_end_oracle_holds : forall c qtver eid m,
+  call_unitsb c = true -> units qtver -> units eid -> wf_msg (s_msg m) -> time_ok (s_time_ms m) ->
+  routed_scalar (s_attrs m) = true -> is_hex32 eid = true ->
+  prop_c18_b m (front_format src_sentry_cfg src_sentry_front c qtver eid m) = true.
+Proof. exact (front_oracle_holds src_sentry_cfg src_sentry_front C18_source_configuration_good C18_source_front_end_good). Qed.
+Print Assumptions C18_front_end_oracle_holds.
+
+(* broken front ends do not have the property: the arguments dropped (SentryFormatterPtr::create()), the shared
+   instance() object handed out, only the name handed on, the two swapped - for each some call gets other constructor
+   arguments than the direct construction; and a declaration default that is not the constructor's *)
+Theorem C18_front_end_dropping_the_arguments_refuted : forall dn dv,
+  exists c, fst (front_args src_sentry_cfg (front_no_args dn dv) c) <> fst (direct_args src_sentry_cfg c).
+Proof. exact (front_no_args_refuted src_sentry_cfg). Qed.
+Print Assumptions C18_front_end_dropping_the_arguments_refuted.
+Theorem C18_front_end_shared_instance_refuted : forall dn dv,
+  exists c, fst (front_args src_sentry_cfg (front_shared dn dv) c) <> fst (direct_args src_sentry_cfg c).
+Proof. exact (front_shared_refuted src_sentry_cfg). Qed.
+Print Assumptions C18_front_end_shared_instance_refuted.
+Theorem C18_front_end_version_dropped_or_swapped_refuted : forall dn dv,
+  (exists c, snd (front_args src_sentry_cfg (front_name_only dn dv) c) <> snd (direct_args src_sentry_cfg c))
+  /\ (exists c, front_args src_sentry_cfg (front_swapped dn dv) c <> direct_args src_sentry_cfg c).
+Proof. exact (fun dn dv => conj (front_name_only_refuted src_sentry_cfg dn dv) (front_swapped_refuted src_sentry_cfg dn dv)). Qed.
+Print Assumptions C18_front_end_version_dropped_or_swapped_refuted.
+Theorem C18_front_end_other_default_refuted : forall fr, front_object fr = FOFresh [FAName; FAVersion] ->
+  front_default_name fr <> sdk_name src_sentry_cfg -> front_args src_sentry_cfg fr SdkNone <> direct_args src_sentry_cfg SdkNone.
+Proof. exact (front_wrong_default_refuted src_sentry_cfg). Qed.
+Print Assumptions C18_front_end_other_default_refuted.
+
+(* non-vacuity: formatToSentry("ab", "7") on the example message - the event is the one of SentryFormatter("ab", "7"), its sdk
+   object holds "ab" / "7", it differs from the default object's event, and the oracle accepts it; a front end that drops the
+   arguments gives the default object's event instead *)
+Example C18_front_nonvacuous :
+  let c := SdkBoth [97; 98] [55] in
+  front_format src_sentry_cfg src_sentry_front c [53] (id128_hex 255) ex_smsg = sentry_format (with_sdk src_sentry_cfg [97; 98] [55]) [53] (id128_hex 255) ex_smsg
+  /\ front_format src_sentry_cfg src_sentry_front c [53] (id128_hex 255) ex_smsg <> sentry_format src_sentry_cfg [53] (id128_hex 255) ex_smsg
+  /\ front_format src_sentry_cfg src_sentry_front SdkNone [53] (id128_hex 255) ex_smsg = sentry_format src_sentry_cfg [53] (id128_hex 255) ex_smsg
+  /\ front_format src_sentry_cfg src_sentry_front (SdkName [97; 98]) [53] (id128_hex 255) ex_smsg
+     = sentry_format (with_sdk src_sentry_cfg [97; 98] (sdk_version src_sentry_cfg)) [53] (id128_hex 255) ex_smsg
+  /\ get2 (event_members [97; 98] [55] [53] (id128_hex 255) ex_smsg) k_sdk k_name = Some (JStr [97; 98])
+  /\ prop_c18_b ex_smsg (front_format src_sentry_cfg src_sentry_front c [53] (id128_hex 255) ex_smsg) = true
+  /\ front_format src_sentry_cfg (front_no_args [] []) c [53] (id128_hex 255) ex_smsg = sentry_format src_sentry_cfg [53] (id128_hex 255) ex_smsg.
+Proof. vm_compute. repeat split. discriminate. Qed.
